@@ -56,3 +56,20 @@ Theorem C07_classification_sound : forall c last cur tl tc,
   | Discard => ~ lex_lt (f_mhp last, f_height last) (f_mhp cur, f_height cur)
   end.
 Proof. exact switch_only_to_not_worse. Qed.
+
+(* "a contradicting header inside the 3-round window always is flagged": on any chain whose blocks each passed the two BFT
+   rules of block verification (own maxHeightPrevoted, no contradiction with the chain) — state invariant [vgood], established
+   by [init_vgood] and preserved by [valid_block_step] — a candidate next header that contradicts ANY windowed header of its
+   generator is reported by IsHeaderContradictingChain, although only the newest such header is compared. *)
+From LE Require Import BFT.Votes BFT.VotesProofs.
+Theorem C07_window_complete : forall s b tip, vgood tip s -> h_height b = tip + 1 -> h_mhp b = v_mhp (s_votes s) ->
+  (exists x, In x (window s) /\ i_gen x = h_gen b /\ contradicting (bh_of_info x) (bh_of_hdr b) = true) ->
+  chain_contradicting (s_votes s) b = true.
+Proof. exact contradicting_in_window_is_flagged. Qed.
+
+Theorem C07_valid_chain_invariant : forall batch s x s1 tip, (0 < batch)%nat -> vgood tip s -> h_height (fst x) = tip + 1 ->
+  bft_valid s (fst x) = true -> apply_block batch s x = Ok s1 -> vgood (tip + 1) s1.
+Proof. exact valid_block_step. Qed.
+
+Theorem C07_valid_chain_invariant_init : forall batch gh c s0, init_store batch gh c = Ok s0 -> vgood gh s0.
+Proof. exact init_vgood. Qed.
